@@ -181,6 +181,34 @@ impl Engine {
         ))
     }
 
+    /// the execution tree of a model: one line per node `id kind level next [kind:on:child ...]`
+    #[cfg(acts_verif)]
+    pub fn verif_tree(model: &crate::Workflow) -> crate::Result<Vec<String>> {
+        let mut tree = crate::scheduler::NodeTree::new();
+        tree.load(model)?;
+        let map = tree.node_map.read().unwrap();
+        let mut out = Vec::new();
+        for (id, n) in map.iter() {
+            let children: Vec<String> = n
+                .children
+                .read()
+                .unwrap()
+                .iter()
+                .map(|c| format!("{:?}:{}:{}", c.typ, c.on.clone().unwrap_or("-".to_string()), c.node.id()))
+                .collect();
+            out.push(format!(
+                "{} {} {} {} [{}]",
+                id,
+                n.kind(),
+                n.level,
+                n.next().upgrade().map(|x| x.id().to_string()).unwrap_or("-".to_string()),
+                children.join(" ")
+            ));
+        }
+        out.sort();
+        Ok(out)
+    }
+
     /// drop a process from the cache (the store rows stay)
     #[cfg(acts_verif)]
     pub fn verif_evict(&self, pid: &str) {
